@@ -1,3 +1,159 @@
-//! C20 — not built yet.
+//! C20 — shadow prices are the sensitivities of the optimum.
+//!
+//! Small continuous models with named rows whose optimum is unique and non-degenerate (constructed that way, and
+//! decided again by the exact oracle) through `solve_real_lp_problem_clarabel` (the built-in solver that reports duals),
+//! directly and through the compile path (`Model` → `Linearizer::linearize`, which bakes derived bounds into the
+//! domains).  The oracle compares every reported price with the exact two-sided finite difference of the certified
+//! optimum under a perturbed right-hand side; inactive rows ≈ 0, unnamed rows absent.
 use crate::case::Case;
-pub fn generate(_seed: u64, _n: usize, _thorough: bool, _corpus: Option<&str>) -> Vec<Case> { vec![] }
+use crate::child::{self, Opts, Outcome, SolverKind};
+use crate::gen_lp::{self, Doms, LpCfg};
+use crate::props::c04::show_model;
+use crate::rng::Rng;
+use crate::sx;
+use indexmap::IndexMap;
+use rooc::model_transformer::{Constraint, DomainVariable, Exp, Model, Objective};
+use rooc::{BinOp, Comparison, LinearModel, Linearizer, OptimizationType, VariableType};
+use std::time::Duration;
+
+const TIMEOUT: Duration = Duration::from_secs(3);
+
+fn det(a: &[Vec<f64>]) -> f64 {
+    match a.len() {
+        1 => a[0][0],
+        2 => a[0][0] * a[1][1] - a[0][1] * a[1][0],
+        _ => a[0][0] * (a[1][1] * a[2][2] - a[1][2] * a[2][1]) - a[0][1] * (a[1][0] * a[2][2] - a[1][2] * a[2][0])
+            + a[0][2] * (a[1][0] * a[2][1] - a[1][1] * a[2][0]),
+    }
+}
+
+/// a model whose optimum is a prescribed vertex `x0` with `n` active, linearly independent rows, non-zero multipliers
+/// (unique + non-degenerate by construction), plus strictly inactive rows.  Bounds are never active.
+pub fn constructed(r: &mut Rng, tight_domains: bool) -> LinearModel {
+    let n = 1 + r.below(3);
+    let x0: Vec<f64> = (0..n).map(|_| 1.0 + r.below(4) as f64).collect();
+    let rows: Vec<Vec<f64>> = loop {
+        let a: Vec<Vec<f64>> = (0..n).map(|_| (0..n).map(|_| r.range(-3, 3) as f64).collect()).collect();
+        if det(&a) != 0.0 { break a; }
+    };
+    let mut m = LinearModel::new();
+    for i in 0..n {
+        let t = if tight_domains { VariableType::NonNegativeReal(0.0, f64::INFINITY) } else {
+            match r.below(4) {
+                0 => VariableType::Real(f64::NEG_INFINITY, f64::INFINITY),
+                1 => VariableType::NonNegativeReal(0.0, f64::INFINITY),
+                2 => VariableType::Real(-10.0, 10.0),
+                _ => VariableType::Real(-2.0, f64::INFINITY),
+            }
+        };
+        m.add_variable(&format!("x{}", i), t);
+    }
+    let is_min = r.chance(1, 2);
+    let mut obj = vec![0.0; n];
+    let mut named = 0;
+    for (k, a) in rows.iter().enumerate() {
+        let rel = gen_lp::cmp3(r, 30);
+        // multiplier of the row in the MIN form: >= rows need y > 0, <= rows y < 0, = rows any non-zero sign
+        let mag = 1.0 + r.below(3) as f64;
+        let y = match rel { Comparison::GreaterOrEqual => mag, Comparison::LessOrEqual => -mag, _ => if r.chance(1, 2) { mag } else { -mag } };
+        for j in 0..n { obj[j] += y * a[j]; }
+        let rhs: f64 = a.iter().zip(&x0).map(|(p, q)| p * q).sum();
+        let name = if r.chance(1, 6) { String::new() } else { named += 1; format!("a{}", k) };
+        m.add_named_constraint(a.clone(), rel, rhs, &name);
+    }
+    for k in 0..r.below(3) {
+        let a: Vec<f64> = (0..n).map(|_| r.range(-3, 3) as f64).collect();
+        let act: f64 = a.iter().zip(&x0).map(|(p, q)| p * q).sum();
+        let (rel, rhs) = if r.chance(1, 2) { (Comparison::LessOrEqual, act + 1.0 + r.below(3) as f64) } else { (Comparison::GreaterOrEqual, act - 1.0 - r.below(3) as f64) };
+        let name = if r.chance(1, 6) { String::new() } else { format!("i{}", k) };
+        m.add_named_constraint(a, rel, rhs, &name);
+    }
+    let _ = named;
+    if is_min { m.set_objective(obj, OptimizationType::Min); } else { m.set_objective(obj.iter().map(|c| -c).collect(), OptimizationType::Max); }
+    m
+}
+
+fn lin_exp(coeffs: &[f64], vars: &[String]) -> Exp {
+    let mut e: Option<Exp> = None;
+    for (c, v) in coeffs.iter().zip(vars) {
+        if *c == 0.0 { continue; }
+        let t = Exp::BinOp(BinOp::Mul, Box::new(Exp::Number(*c)), Box::new(Exp::Variable(v.clone())));
+        e = Some(match e { None => t, Some(p) => Exp::BinOp(BinOp::Add, Box::new(p), Box::new(t)) });
+    }
+    e.unwrap_or(Exp::Number(0.0))
+}
+
+/// the same LP as a source `Model`, compiled by the real linearizer (derived bounds are baked into the domains)
+pub fn compile(lm: &LinearModel) -> Option<LinearModel> {
+    let vars = lm.variables();
+    let mut domain: IndexMap<String, DomainVariable> = IndexMap::new();
+    for (n, d) in lm.domain() {
+        let mut dv = DomainVariable::new(d.get_type().clone(), Default::default());
+        dv.increment_usage();
+        domain.insert(n.clone(), dv);
+    }
+    let cons = lm.constraints().iter().map(|r| Constraint::new(lin_exp(r.coefficients(), vars), *r.constraint_type(), Exp::Number(r.rhs()), r.name())).collect();
+    let obj = Objective::new(lm.optimization_type().clone(), lin_exp(lm.objective(), vars));
+    let model = Model::new(obj, cons, domain);
+    std::panic::catch_unwind(|| Linearizer::linearize(model).ok()).ok().flatten()
+}
+
+fn push_case(lm: &LinearModel, solved: &LinearModel, stream: &str, compiled: bool, variants: &gen_lp::Variants, out: &mut Vec<Case>) {
+    let opts = Opts::default();
+    let o = child::solve(SolverKind::Clarabel, solved, &opts, TIMEOUT);
+    let res = gen_lp::result(&o);
+    let mut c = Case::default();
+    c.imp = res.clone();
+    if !matches!(o, Outcome::Hang) {
+        c.req = gen_lp::clarabel_req(solved, &sx::lin_model(solved), variants, TIMEOUT).unwrap_or_default();
+    }
+    c.oracle = if compiled { format!("shadow-compiled {} {} {}", sx::lin_model(lm), sx::lin_model(solved), res) }
+               else { format!("shadow {} {}", sx::lin_model(lm), res) };
+    c.tags = vec![format!("stream-{}", stream), format!("sense-{}", sx::opt_type(lm.optimization_type())),
+        match &o { Outcome::Solution(_) => "answer-solution".to_string(), Outcome::Err { variant, .. } => format!("answer-err-{}", variant), Outcome::Panic(_) => "answer-panic".into(), Outcome::Hang => "answer-hang".into() }];
+    for r in lm.constraints() {
+        c.tags.push(format!("row-{}{}", sx::cmp(*r.constraint_type()), if r.name().is_empty() { "-unnamed" } else { "" }));
+    }
+    if compiled && sx::domain(lm.domain()) != sx::domain(solved.domain()) { c.tags.push("derived-bounds-tighten-domain".into()); }
+    c.tags.sort();
+    c.tags.dedup();
+    c.nontrivial = matches!(&o, Outcome::Solution(s) if !s.duals.is_empty());
+    c.show = format!("clarabel shadow prices{} on: {}", if compiled { " (compile path)" } else { "" }, show_model(lm));
+    out.push(c);
+}
+
+/// design-phase probe: `min x + y; a: x + 2y = 4; b: x <= 1; x, y NonNegativeReal`
+pub fn seeded() -> LinearModel {
+    let mut m = LinearModel::new();
+    m.add_variable("x", VariableType::NonNegativeReal(0.0, f64::INFINITY));
+    m.add_variable("y", VariableType::NonNegativeReal(0.0, f64::INFINITY));
+    m.add_named_constraint(vec![1.0, 2.0], Comparison::Equal, 4.0, "a");
+    m.add_named_constraint(vec![1.0, 0.0], Comparison::LessOrEqual, 1.0, "b");
+    m.set_objective(vec![1.0, 1.0], OptimizationType::Min);
+    m
+}
+
+pub fn generate(seed: u64, n: usize, _thorough: bool, _corpus: Option<&str>) -> Vec<Case> {
+    let mut r = Rng::new(seed);
+    let mut cases = vec![];
+    let variants = &gen_lp::detect_variants();
+    let s = seeded();
+    push_case(&s, &s, "seeded-direct", false, variants, &mut cases);
+    if let Some(c) = compile(&s) { push_case(&s, &c, "seeded-compiled", true, variants, &mut cases); }
+    for i in 0..n {
+        match i % 4 {
+            0 | 1 => { let lm = constructed(&mut r, false); push_case(&lm, &lm, "constructed-direct", false, variants, &mut cases); }
+            2 => {
+                let tight = r.chance(1, 2);
+                let lm = constructed(&mut r, tight);
+                if let Some(c) = compile(&lm) { push_case(&lm, &c, "constructed-compiled", true, variants, &mut cases); }
+            }
+            _ => {
+                let (lm, _) = gen_lp::model(&mut r, &LpCfg { doms: Doms::Continuous, naming: 1, allow_satisfy: false, feasible_pct: 90, max_vars: 3, max_rows: 4, ..LpCfg::default() });
+                push_case(&lm, &lm, "random-direct", false, variants, &mut cases);
+            }
+        }
+    }
+    child::shutdown();
+    cases
+}
